@@ -60,6 +60,25 @@ theorem cropBox_window (v : Nat → Nat → Bool) (rows cols r0 r1 c0 c1 : Nat)
     obtain ⟨rfl, rfl, rfl, rfl⟩ := hb
     exact ⟨rfl, rfl, rfl, rfl⟩
 
+/-- (TRANSLATED) the five statistics of `prysm.util`, read as list expressions over the valid samples, ARE the model's:
+    `mean`, `pv = max - min`, `rms = sqrt (mean square)`, `Sa = sum |v - mean| / n`, `std = sqrt (variance)` -/
+theorem gen_util_stats {K : Type} [Num K] [LT K] [DecidableLT K] (absf sqrtf : K → K) (v : List K) :
+    Generated.C12.util_mean absf sqrtf v = mean v ∧ Generated.C12.util_pv absf sqrtf v = pv v ∧
+    Generated.C12.util_rms absf sqrtf v = sqrtf (meanSq v) ∧ Generated.C12.util_Sa absf sqrtf v = saWith absf v ∧
+    Generated.C12.util_std absf sqrtf v = sqrtf (var v) := by
+  refine ⟨?_, ?_, ?_, ?_, ?_⟩ <;>
+    simp only [Generated.C12.util_mean, Generated.C12.util_pv, Generated.C12.util_rms, Generated.C12.util_Sa,
+      Generated.C12.util_std, mean, pv, meanSq, saWith, var, lenK, List.length_map, List.map_map, Function.comp_def]
+
+/-- (TRANSLATED) the statistics select their samples with `isfinite`: NaN, +inf and -inf are all invalid -/
+theorem gen_util_valid_is_finite : Generated.C12.utilValidIsFinite = true := by decide
+
+/-- (TRANSLATED) tilt removal fits the columns `(x, y)` without a constant and subtracts both; power removal fits
+    `(rho^2, 1)` and subtracts only the first — the two cases `tilt_removal_idempotent` / `power_removal_idempotent` are about -/
+theorem gen_removal_columns :
+    Generated.C12.tiltRemovedColumns = [0, 1] ∧ Generated.C12.powerRemovedColumns = [0] ∧
+    Generated.C12.tiltDesignHasConstant = false ∧ Generated.C12.powerDesignHasConstant = true := by decide
+
 /-! ## coherence for every history -/
 
 section coherence
@@ -75,6 +94,15 @@ theorem wellBehaved_preserves_inv (effs : List Eff) (hwb : WellBehaved effs = tr
 theorem inv_init (rows cols : Nat) (dx : K) (lc : Bool) (sv : Nat → K) :
     Inv (⟨rows, cols, dx, lc, none, none, none, none, sv⟩ : State K) :=
   ⟨by simp, by simp, by simp, by simp, rfl, rfl⟩
+
+/-- (TRANSLATED) every path of the constructors of the current source establishes coherence from scratch: analysed from NO
+    knowledge about the caches, the effect list of `RichData.__init__` / `Interferogram.__init__` is accepted -/
+theorem inits_wellBehaved : (Generated.C12.inits.all WellBehavedInit) = true := by decide
+
+/-- a freshly constructed object is coherent, whatever the arguments (ties `inv_init` to the source of `__init__`) -/
+theorem constructed_coherent (effs : List Eff) (h : effs ∈ Generated.C12.inits) (env : Env K) (s : State K) :
+    Inv (run env s effs) :=
+  wellBehavedInit_sound effs (List.all_eq_true.mp inits_wellBehaved effs h) env s
 
 /-- **coherence over any history**: after any sequence (any length, any interleaving, any arguments) of calls of
     methods of the current source — including bare reads of `x / y / r / t` — the state is coherent -/
@@ -105,7 +133,7 @@ theorem read_xy_coherent (env : Env K) (s : State K) (h : Inv s) (c : XY) :
   · exact hinv.x a ha
   · exact hinv.y a ha
 
-/-- an affine grid with spacing `sp`: neighbouring samples along the axis differ by exactly `sp` -/
+/-- (about the model's affine-grid abstraction, not translated) neighbouring samples along the axis differ by exactly `sp` -/
 theorem axis_spacing (a : Axis K) (j : Nat) :
     (a.o + ((j + 1 : Nat) : K) * a.sp) - (a.o + (j : K) * a.sp) = a.sp := by
   push_cast; ring
@@ -187,7 +215,8 @@ theorem arith_keeps_valid (sel : Bool) (f : K → K) (v : Option K) (d : Option 
   cases sel <;> cases d <;> simp [writeSample]
 
 /-- a method whose effect list writes `data` only by elementwise arithmetic leaves every sample's validity as it was,
-    whatever the selected samples and the subtracted values are -/
+    whatever the selected samples are — PROVIDED the subtracted values are finite (`f : K → K` is total; a NaN / inf in the
+    fitted term, e.g. from a singular fit, is outside this statement and is covered by the history correspondence only) -/
 theorem validity_preserved (l : List (Eff × Bool × (K → K) × Option K))
     (h : KeepsValidity (l.map Prod.fst) = true) (d : Option K) :
     (l.foldl sampleStep d).isSome = d.isSome := by
@@ -226,12 +255,6 @@ theorem sa_sq_le_std_sq (d : List (Option K)) (h : validOf d ≠ []) :
 theorem std_sq_le_pv_sq (d : List (Option K)) (h : validOf d ≠ []) :
     var (validOf d) ≤ pv (validOf d) * pv (validOf d) ∧ 0 ≤ pv (validOf d) :=
   ⟨var_le_pv_sq _ h, pv_nonneg _ h⟩
-
-/-- invalid samples do not enter any statistic: the statistics are functions of the list of valid samples only,
-    and inserting NaNs anywhere does not change that list -/
-theorem stats_ignore_invalid (d1 d2 : List (Option K)) :
-    validOf (d1 ++ none :: d2) = validOf (d1 ++ d2) := by
-  simp [validOf, List.filterMap_append]
 
 /-- piston removal leaves exactly zero mean over the valid samples and does not touch validity -/
 theorem piston_zero_mean (d : List (Option K)) (h : validOf d ≠ []) :
@@ -272,6 +295,18 @@ theorem sa_le_std_le_pv (d : List (Option ℝ)) (h : validOf d ≠ []) :
   · rw [stdR]
     apply Real.sqrt_le_iff.mpr
     exact ⟨pv_nonneg _ h, by rw [sq]; exact var_le_pv_sq _ h⟩
+
+/-- the identities of the property for the statistics AS TRANSLATED from `prysm.util` (real square root and absolute value):
+    `rms² = std² + mean²` and `Sa ≤ std ≤ PV` over the valid samples of any map with at least one valid sample -/
+theorem util_stats_identities (d : List (Option ℝ)) (h : validOf d ≠ []) :
+    Generated.C12.util_rms (fun t => |t|) Real.sqrt (validOf d) ^ 2
+      = Generated.C12.util_std (fun t => |t|) Real.sqrt (validOf d) ^ 2
+        + Generated.C12.util_mean (fun t => |t|) Real.sqrt (validOf d) ^ 2 ∧
+    Generated.C12.util_Sa (fun t => |t|) Real.sqrt (validOf d) ≤ Generated.C12.util_std (fun t => |t|) Real.sqrt (validOf d) ∧
+    Generated.C12.util_std (fun t => |t|) Real.sqrt (validOf d) ≤ Generated.C12.util_pv (fun t => |t|) Real.sqrt (validOf d) := by
+  obtain ⟨e1, e2, e3, e4, e5⟩ := gen_util_stats (fun t : ℝ => |t|) Real.sqrt (validOf d)
+  rw [e1, e2, e3, e4, e5]
+  exact ⟨rms_sq_eq_std_sq_add_mean_sq d h, sa_le_std_le_pv d h⟩
 
 /-! ## bounding-box crop -/
 
